@@ -119,6 +119,7 @@ func intrinsic(name string, args []value) (value, bool) {
 	case "zzReach":
 		EX.Witness["reach:"+args[0].(string)]++
 		EX.reached = true
+		EX.curReach = append(EX.curReach, args[0].(string))
 		return nil, true
 	}
 	return nil, false
